@@ -207,6 +207,18 @@ func (c *Ctx) familyFuncs(ob *core.Obligation, f *Family) map[*types.Func]bool {
 		var roots []*ssa.Function
 		for _, s := range specs {
 			i := strings.Index(s, ":")
+			if s[:i] == "role" {
+				// a function found by what it does (see IRoles)
+				if ir := c.IRoles(ob); ir != nil {
+					switch s[i+1:] {
+					case "Dispatcher":
+						roots = append(roots, ir.Dispatcher)
+					case "PrefetchStmt":
+						roots = append(roots, ir.PrefetchStmt)
+					}
+				}
+				continue
+			}
 			fn := c.Fn(ob, s[:i], s[i+1:])
 			if fn != nil {
 				roots = append(roots, fn)
